@@ -47,10 +47,19 @@ func (o sqlOperand) Sx() Sx {
 func (o sqlOperand) expr() ast.Expr {
 	switch o.kind {
 	case "num":
-		// a literal whose text parses back to exactly this float
+		// a literal whose text parses back to exactly this float; small non-negative integers also in their hexadecimal
+		// spelling (the SOURCE text of a literal is not its SQL text)
+		if o.num >= 0 && o.num < 1<<40 && o.num == math.Trunc(o.num) && int64(o.num)%3 == 0 {
+			return &ast.NumExpr{Pos: pos.Unknown, Text: "0x" + strconv.FormatInt(int64(o.num), 16), Val: o.num}
+		}
 		return &ast.NumExpr{Pos: pos.Unknown, Text: strconv.FormatFloat(o.num, 'g', -1, 64), Val: o.num}
 	case "str":
-		return &ast.StrExpr{Pos: pos.Unknown, Text: strconv.Quote(o.str), Val: o.str}
+		// raw back-quoted spelling where the value allows it (by length parity, so that both spellings occur), and the
+		// \u escape spelling for non-ASCII text
+		if !strings.Contains(o.str, "`") && !strings.Contains(o.str, "\r") && len(o.str)%2 == 1 {
+			return &ast.StrExpr{Pos: pos.Unknown, Text: "`" + o.str + "`", Val: o.str}
+		}
+		return &ast.StrExpr{Pos: pos.Unknown, Text: strconv.QuoteToASCII(o.str), Val: o.str}
 	case "bool":
 		if o.b {
 			return ast.True(pos.Unknown)
@@ -303,7 +312,7 @@ func (g *sqlGen) operand(kind string) sqlOperand {
 		if rn.Intn(5) == 0 {
 			return sqlOperand{kind: "name", str: "who"}
 		}
-		pool := []string{"", "a", "a AND b", "x\" OR 1=1 --", "it's", "back\\slash", "\\\"", "tab\there", "nl\nx", "é", "\x00", "\x1a", "%_", "\xff", "\" ) OR ( \"", "a\\", "\\"}
+		pool := []string{"", "a", "admin", "a AND b", "x\" OR \"1\"=\"1", "C:\\dir\\", "x\" OR 1=1 --", "it's", "back\\slash", "\\\"", "tab\there", "nl\nx", "é", "\x00", "\x1a", "%_", "\xff", "\" ) OR ( \"", "a\\", "\\"}
 		return sqlOperand{kind: "str", str: pool[rn.Intn(len(pool))]}
 	case "bool":
 		return sqlOperand{kind: "bool", b: rn.Intn(2) == 0}
